@@ -416,6 +416,24 @@ def run_job(prop, job, tier, kf_defs, keep):
         r["detail"] = "cbmc rc=%s (out of memory / front-end error?) %s %s" % (rc, msgs, open(out, errors="replace").read()[-600:])
         return r
     wr, wm, bf, rf, nob, nok, unk = classify(props)
+    # Loops whose iteration bound IS the claim (job field termination_loops: list of loop ids such as
+    # "ares_dns_name_parse.0"): the job's unwind value for them is an upper bound DERIVED from the code for inputs of the
+    # job's size (stated in the job's bound text), so exceeding it is not "our bound was too small" but the loop doing
+    # more work than any terminating run can - non-termination / unbounded work on a bounded input: a violation.
+    tl = job.get("termination_loops") or []
+    if tl:
+        keep_bf = []
+        for p in bf:
+            pid = p.get("property", "")
+            m = re.match(r"^(.*)\.unwind\.(\d+)$", pid)
+            if m and ("%s.%s" % (m.group(1), m.group(2))) in tl:
+                p = dict(p)
+                p["description"] = ("PROP:loop %s.%s terminates within the iteration bound derived for inputs of this size "
+                                    "(exceeded: non-termination or unbounded work on a bounded input)" % (m.group(1), m.group(2)))
+                rf.append(p)
+            else:
+                keep_bf.append(p)
+        bf = keep_bf
     r["obligations"], r["discharged"], r["witness_reached"] = nob, nok, wr
     r["ssa_steps"], r["vccs"] = cbmc_sizes(out)
     # functions encoded (evidence)
